@@ -1,4 +1,5 @@
 import ZorgVerif.Lemmas.Zo
+import ZorgVerif.Gen.FileLexer
 import ZorgVerif.Model.Refuse
 /-!
 # C08 — Indexing never crashes on any file and never silently drops a broken one  *(partial)*
@@ -80,5 +81,14 @@ theorem C08_flag_partial (errs items : Nat) : flagged errs items = true ↔ (0 <
 "syntax error ⇒ flagged" fails for pages on which no note is reached. -/
 theorem C08_flag_counterexample : flagged 3 0 = false ∧ createDecision (flagged 3 0) false false = .index := by
   decide
+
+/-! Non-vacuity: the formerly crashing inputs (impossible dates, `::` inside an inline property, empty bullet) compile in the
+model, through the generated lexer -/
+private def compileText (s : String) : Except Err PageResult :=
+  compileToks ⟨2024, 6, 15⟩ "P3".toList ((Lex.lex Gen.FileLexer.rules s.toList).filter (·.name != "<err>"))
+
+example : (match compileText "# T\n\n- 241399 impossible date word\no P1 240230#00 impossible zid\n- [a::b::c] odd\n  * \n" with
+    | .ok r => r.notes.map (fun (n : Note) => (n.line, n.zid.map Str.toStr, n.props.map (fun (kv : Str × Str) => (Str.toStr kv.1, Str.toStr kv.2))))
+    | .error _ => [(0, none, [])]) = [(3, none, []), (4, none, []), (5, none, [("a", "b::c")])] := by decide +kernel
 
 end ZorgVerif.C08
